@@ -81,6 +81,9 @@ def seeded(ctx, rng, n):
             if all(abs(c - w) >= 0.3 for c in cand for w in roots):
                 roots += cand
         lead = rng.choice([1.0, 1.0, 2.0, -0.5, 10.0, 0.1])
+        if not realcoef and rng.random() < 0.4:
+            # a leading coefficient off the real axis: purely imaginary, or of modulus 1 at a random angle
+            lead = rng.choice([2j, -1j, 0.5j, cmath.rect(1.0, rng.uniform(0, 2 * math.pi))])
         tol = 10.0 ** (-rng.uniform(6, 10))
         cases.append(case(roots, lead, tol, force_cx=(False if realcoef else None)))
     for deg in range(2, 11):
@@ -95,12 +98,13 @@ def seeded(ctx, rng, n):
 
 def zeros(ctx):
     cases = []
-    for fam, nmax in (("legendre", 16), ("hermite", 14), ("laguerre", 12)):
+    for fam, nmax in (("legendre", 16), ("hermite", 14), ("laguerre", 14)):
         for n in range(0, nmax + 1):
-            for tol in (1e-8, 1e-10):
+            # (Laguerre 13 and 14 have leading coefficients 1.6e-10 and 1.1e-11: they are in scope for a root tolerance below that)
+            for tol in ((1e-8, 1e-10) if not (fam == "laguerre" and n >= 13) else ((1e-10,) if n == 13 else (5e-12,))):
                 # roots() treats a leading coefficient below tol as zero (its documented precondition): the
                 # Laguerre polynomial's leading coefficient is 1/n!, so only tolerances below it are in scope
-                if fam == "laguerre" and 1.0 / math.factorial(n) < 10 * tol:
+                if fam == "laguerre" and 1.0 / math.factorial(n) < (10 if n < 13 else 1.5) * tol:
                     continue
                 # the two tolerances are independent arguments (root finder / polynomial constructor): 1e-12 and, as the
                 # crate's own tests pass it, 1e-30 for the constructor; a coarse constructor tolerance with a fine root tolerance
